@@ -18,6 +18,7 @@ CHECKS = {
              'pack_index / unpack_index / grid_dimensions / grid_kinds re-read from /repo/src on every run and '
              'discharged by z3 for all extents and all indexes, for 11 convention x encoding configurations x every '
              'grid kind. A bounded native stand-in re-checks every index of small datasets and supplies replayable inputs.',
+        text_extra='Decision table rows added: meshes with a face-edge (and face-face) table but no edge dimension have no edge grid.',
         note=TRUST + 'Assumed: NP-RAVEL-MI, NP-UNRAVEL, NP-PROD contracts; integers mathematical (A-INT).',
         technique='AST-generated verification conditions over the real source, discharged by z3 (contract-based deductive verification); bounded native replay',
         design_ref='Part III C01'),
@@ -146,7 +147,7 @@ CHECKS = {
              'geometry = bbox / union) are carried by the bounded native stand-in; the extent override is a known finding.',
         text_extra='Also proved: CFGrid2D stored bounds are used only when they are on the grid of the coordinate (rejection of transposed / 3-corner / '
              'corner-first bounds with a warning); CFGrid.bounds and UGrid.bounds contain every corner / node of every cell that has a polygon '
-             '(tightness over kept polygons does not hold: known finding D10).',
+             '(tightness over kept polygons does not hold: known finding D10). Also proved: for the conventions without a shortcut (Arakawa C / SHOC standard) the reported bounds are the bounding box of the overall geometry, and for every convention but CF 1-D the overall geometry is the union of exactly the polygons the validity mask selects (union / bounding box as terms).',
         note=TRUST + 'Assumed: A-REAL (midpoints), NP-STACK / BROADCAST / TRANSPOSE / RESHAPE / FLATNONZERO / FANCY-INDEX / MA-*, '
              'SH-POLYGONS-OUT, SH-IS-VALID (uninterpreted), SELECTION-THEORY, contract of Mesh2DTopology.sensible_fill_value; '
              'VALID-UGRID-MESH. shapely validity / union themselves: bounded only.',
@@ -312,15 +313,20 @@ CHECKS = {
              'n symbolic) the result has shape (cells, n - 2, 3, 2) and triangle t of cell p has corners vertex 0, t + 1 and t + 2 of that cell, '
              'bit for bit, all corner indexes valid. Lemmas over the reals discharged by z3: the signed areas of the n - 2 fan triangles add up to '
              'the signed area of the polygon (n = 3..8), and in a convex anticlockwise ring every fan triangle is anticlockwise or flat -- hence '
-             'the fan covers a convex cell exactly and without overlap. BOUNDED (native, not proved): triangulate_dataset (pandas index joins, '
-             'loops carrying counters over numpy.unique of cell sizes) and _triangulate_concave_polygon (ear clipping driven by shapely '
-             'predicates) are outside the verifier; they are checked on 15 ring shapes (3..8 sides, reflex and collinear vertices, both windings, '
+             'the fan covers a convex cell exactly and without overlap. triangulate_dataset (real body, run up to three cut points, any number of cells): '
+             'the cells set aside for ear clipping are exactly the cells with geometry whose convex hull has another number of coordinates than the cell, '
+             'whatever the number of sides; cells without geometry and cells set aside count as length 0; the batch of length u holds exactly the remaining '
+             'cells with u ring coordinates, in increasing order, with their own polygons, and the fan method is applied to exactly that batch; every cell set '
+             'aside is handed with its own polygon and index to ear clipping. BOUNDED (native, not proved): the buffer bookkeeping of triangulate_dataset '
+             '(_add_triangles, the final assert), the vertex de-duplication and index joins (pandas) and _triangulate_concave_polygon (ear clipping driven by '
+             'shapely predicates) are outside the verifier; they are checked on 15 ring shapes (3..8 sides, reflex and collinear vertices, both windings, '
              'every starting vertex), convention datasets with holes and a grid with holes ahead of a concave cell, against an exact rational '
              'oracle: n - 2 triangles per cell, corners are cell vertices, containment, areas sum exactly, no duplicate vertices, valid indexes, '
              'no triangle for cells without geometry.',
-        note=TRUST + 'Assumed: SHAPELY-GET-COORDINATES / SHAPELY-RING-CLOSED, NP-REPEAT / NP-STACK / NP-RESHAPE, A-REAL. Everything outside '
-             '_triangulate_polygons_by_length is bounded native only.',
-        technique='AST-generated verification conditions over the real source for the bulk fan triangulation plus real-arithmetic lemmas, z3; the remaining functions by bounded native comparison with an exact rational oracle (not proved)',
+        note=TRUST + 'Assumed: SHAPELY-GET-COORDINATES / SHAPELY-RING-CLOSED, SH-NUM-COORDINATES, SH-CONVEX-HULL (hull as a term; that equal coordinate counts '
+             'mean convex is geometry, carried by the native oracle), NP-SUM-ABSTRACT, NP-EMPTY, NP-REPEAT / NP-STACK / NP-RESHAPE, A-REAL, polygon contract (C02/C06). '
+             'The part of triangulate_dataset after the cut points and ear clipping are bounded native only.',
+        technique='AST-generated verification conditions over the real source, z3: the bulk fan triangulation plus real-arithmetic lemmas, and intermediate assertions at cut points of triangulate_dataset (cell classification and batching); the rest by bounded native comparison with an exact rational oracle (not proved)',
         design_ref='Part III C14'),
     'C18': dict(
         category='other',
@@ -336,13 +342,15 @@ CHECKS = {
              'the list is sorted ascending by (start_distance, end_distance); no segments iff no cell intersects (FOREACH / COLLECT loop rule, '
              'any number of cells and pieces). distance_along_line(point) (real body, any number of path vertices): ValueError exactly for positions outside [0, 1], '
              'otherwise the accumulated distance of the last vertex at or before the point plus the planar distance between that vertex and the point, '
-             'both projected from the data CRS into that vertex\'s own projection (abstract cartopy / shapely terms). BOUNDED (native, not proved): what the geometry terms denote -- shapely intersections, '
-             'cartopy projections, Transect.points and distance_along_line, floating-point distances -- is outside the verifier; 60 transects (5 datasets incl. a 1 km grid, 12 polylines: '
+             'both projected from the data CRS into that vertex\'s own projection (abstract cartopy / shapely terms). Transect.points (real body, loop invariant '
+             'over any number of vertices): vertex j gets its own point, the azimuthal equidistant projection centred on it, distance_normalised = '
+             'line.project(point, normalized=True) and distance_metres(j) = distance_metres(j - 1) + the planar distance between vertices j - 1 and j in the projection of vertex j - 1; the first vertex is at 0. BOUNDED (native, not proved): what the geometry terms denote -- shapely intersections, '
+             'cartopy projections, floating-point distances -- is outside the verifier; 60 transects (5 datasets incl. a 1 km grid, 12 polylines: '
              'through, inside one cell, leaving and re-entering a cell, over holes, along a cell edge, missing the model, every heading) are '
              'checked against shapely / pyproj oracles: each piece lies in its cell and on the path, names that cell, pieces add up to the '
              'path inside the union of cells (1e-9), path order by projection, start <= end, distances within the path.',
-        note=TRUST + 'Assumed: contract of Transect.segments (for the data pairing; its routing is proved separately, see above) / points / distance_along_line '
-             '(bounded native only), SH-INTERSECTION (kinds, parts and emptiness of polygon.intersection(line)), SH-STRTREE-QUERY, PY-SORTED, C03 ravel / wind_index, XR-ISEL-POINTWISE, NP-FROMITER-SUBARRAY. '
+        note=TRUST + 'Assumed: contract of Transect.segments (for the data pairing; its routing is proved separately, see above) / points (for distance_along_line; proved separately by the loop invariant) / distance_along_line (for segments; proved separately), '
+             'SH-INTERSECTION (kinds, parts and emptiness of polygon.intersection(line)), SH-STRTREE-QUERY, PY-SORTED, C03 ravel / wind_index, XR-ISEL-POINTWISE, NP-FROMITER-SUBARRAY. '
              'The optional cfunits import is satisfied by harness/stubs/cfunits (axis labels only). Genuine defect found and fixed: distances '
              'measured from the CRS origin although the reference vertex projects ~7 km off it (segments out of path order on fine grids).',
         technique='AST-generated verification conditions over the real source, z3: segment / data pairing against an abstract segment sequence, and segment construction (Transect.segments, _intersect_polygon) against abstract geometry terms with a FOREACH / COLLECT loop rule; what the geometry denotes by bounded native comparison with shapely / pyproj oracles (not proved)',
